@@ -52,3 +52,12 @@ UNITS["hasher"] = {
     "verify": "code",
     "doc": "incremental Hasher (update/finalize/reset/count), hazmat extension, against the tree spec",
 }
+
+UNITS["spec_lemmas"] = {
+    "files": [],
+    "prelude": _p("prelude/core.rs"),
+    "spec": _p("spec/blake3_spec.rs", "spec/tree_spec.rs", "spec/stack_spec.rs", "spec/stream_spec.rs"),
+    "overlays": [],
+    "verify": "spec",
+    "doc": "all lemmas of the specification module used by the code units (tree, stack, output stream); no repo code",
+}
